@@ -8,7 +8,8 @@
       (main routine: the program ends; subroutine: the machine is back at the return point of the
       innermost frame with the returned value on top of the stack the evaluation started with),
       and `ret` is only allowed where the stack is the one of the routine entry (`rc`);
-    * the `call` case is in `Proofs/C02GenCall.lean`; here it is a hypothesis of `step_ev`.
+    * the `call` case is in `Proofs/C02GenCall.lean`, the `wideRatio` case in
+      `Proofs/C02GenWide.lean`; here they are hypotheses of `step_ev`.
 -/
 import PyTealV.Proofs.C02GenShape
 import PyTealV.Proofs.C02GenPrim
@@ -1412,6 +1413,11 @@ theorem step_ev {e s k L bc rc n σ ic bcs w r w'} (hF : RFacts env.cx X cfg K)
       Blk X.G cb (callOps cfg f ce) (.next k) → ShapeRArgs X.G cfg args s cb L →
       wtR K bc rc n (.call f args) = true → eval env (fuel + 1) (.call f args) w = (r, w') →
       Goal env.cx X s k L bc rc K.rv n σ ic bcs w r w')
+    (hwide : ∀ ns ds s dstart cb k L bc rc n σ ic bcs w r w',
+      Blk X.G cb (wideInstrs Models.WideRatio.combine) (.next k) →
+      ShapeRWideTop X.G cfg ds dstart cb L → ShapeRWideTop X.G cfg ns s dstart L →
+      wtR K bc rc n (.wideRatio ns ds) = true → eval env (fuel + 1) (.wideRatio ns ds) w = (r, w') →
+      Goal env.cx X s k L bc rc K.rv n σ ic bcs w r w')
     (hs : ShapeR X.G cfg e s k L) (hw : wtR K bc rc n e = true)
     (h : eval env (fuel + 1) e w = (r, w')) : Goal env.cx X s k L bc rc K.rv n σ ic bcs w r w' := by
   have ih := ihs fuel (Nat.le_refl _)
@@ -1536,7 +1542,7 @@ theorem step_ev {e s k L bc rc n σ ic bcs w r w'} (hF : RFacts env.cx X cfg K)
     simp only [wtR] at hw
     exact case_nonce ih he hb hw h
   | call hf hb ha => exact hcall _ _ _ _ _ _ _ _ _ _ σ ic bcs _ _ _ hf hb ha hw h
-  | wide => simp only [wtR] at hw; cases hw
+  | wide hb hd hn => exact hwide _ _ _ _ _ _ _ _ _ _ σ ic bcs _ _ _ hb hd hn hw h
   | substring hlow hb ha =>
     simp only [wtR, Bool.and_eq_true, beq_iff_eq] at hw
     exact case_substring hKI hX hF.prot ihs hlow hb ha hw.1.1.1 hw.1.1.2 hw.1.2 hw.2 h
